@@ -42,7 +42,7 @@ PROPS["C02"] = dict(
     assumptions=COMMON_ASSUME,
     technique="property-based testing (rapid) + bounded-exhaustive two-level sweep against a Go-slice view model with bidirectional sharing probes",
     level_text=("Generated-input search over nested Slice chains, valid and invalid, against an (offset,len,cap) model; exhaustive for "
-                "C<=3, K<=3 (5 thorough) over all first- and second-level ranges in [-2,K+2]^2 for all 13 types; extreme arguments sampled. Three named element types; channel counts around 256 and 65536 are swept. Roots of 2^24+9 .. 2^25+1 samples: window shapes and the sharing of first and last samples (huge cases)."),
+                "C<=3, K<=3 (5 thorough) over all first- and second-level ranges in [-2,K+2]^2 for all 13 types; extreme arguments sampled. Three named element types; channel counts around 256 and 65536 are swept. Roots of 2^24+9 .. 2^25+1 samples: window shapes and the sharing of first and last samples (huge cases). Two roots of more than 2^31 and 2^32 int8 samples (virtual memory; skipped when MemAvailable is below four times the size)."),
     level_note="Trusts Alloc and Sample/SetSample to build and observe fixtures; panics are observed with recover().",
 )
 PROPS["C03"] = dict(
@@ -136,7 +136,7 @@ PROPS["C15"] = dict(
           "Oracle: the call panics; afterwards both operands' whole root storage, headers and the caller's slices are unchanged; for Put the "
           "rejected buffer is intact (not cleared) and the next three Gets return allocator-shaped zeroed buffers. Every case is a mismatch "
           "by construction; distinct = distinct (entry point, types, shapes)."
-          " Operands may end in partial frames; the caller's outer slice may have further per-channel slices behind its length. Operands may hold fewer samples than one frame (1..C-1 single samples in an empty window). Put of a buffer grown to a partial last frame into a pool of the whole frames below its length; whether a case is a mismatch is decided from the storage's capacity, not from Cap(). A burst of up to 100 legitimate get/put pairs may precede the mismatching Put."),
+          " Operands may end in partial frames; the caller's outer slice may have further per-channel slices behind its length. Operands may hold fewer samples than one frame (1..C-1 single samples in an empty window). Put of a buffer grown to a partial last frame into a pool of the whole frames below its length; whether a case is a mismatch is decided from the storage's capacity, not from Cap(). A burst of up to 100 legitimate get/put pairs may precede the mismatching Put. Every rejected Put is repeated once: it must panic again and change nothing."),
     quick=dict(rapid=dict(checks=40000, shards=8)),
     thorough=dict(rapid=dict(checks=150000, shards=16), fuzz=dict(targets=["FuzzC15"], seconds=20)),
     assumptions=COMMON_ASSUME,
@@ -160,7 +160,7 @@ PROPS["C20"] = dict(
     assumptions=COMMON_ASSUME,
     technique="bounded-exhaustive cross product of entry points x degenerate shapes + property-based testing (rapid); oracle = no panic, zero counts, whole-state snapshots",
     level_text=("Exhaustive cross product of every exported entry point x every degenerate allocator on a small grid x all types/pairs/instantiations; "
-                "larger degenerate shapes and partner sizes sampled by rapid. Pooled zero-length buffers are used (AppendSample) before they go back. Three named element types and nine named/underlying Read/Write pairs."),
+                "larger degenerate shapes and partner sizes sampled by rapid. Pooled zero-length buffers are used (AppendSample) before they go back. Three named element types and nine named/underlying Read/Write pairs. After Slice(0,0) of a zero-capacity buffer one of the two grows by an Append; the other must stay inert."),
     level_note="For ChannelLength(n>0, 0), a combination no buffer can produce, only 'no panic and a result in [0,n]' is demanded.",
 )
 NUM_ASSUME = COMMON_ASSUME + [
@@ -317,7 +317,7 @@ PROPS["C18"] = dict(
     assumptions=COMMON_ASSUME + ["escape analysis and inlining are compiler decisions: the verdict is for go1.23.5 and the generated instantiations/shapes",
                                  "non-race build, one process per shard (AllocsPerRun pins GOMAXPROCS to 1 and reads process-wide malloc counters)"],
     technique="property-based testing (rapid) + exhaustive operation x type sweep with testing.AllocsPerRun as the oracle",
-    level_text=("Every operation x every element type (all 169 conversions) is measured at several shapes in both tiers; rapid samples further shapes and type pairs. Append within capacity also with source and destination being windows of one parent, and of a buffer onto itself. Interleaved get/put cycles of two pools of the same shape for every pair of element types."),
+    level_text=("Every operation x every element type (all 169 conversions) is measured at several shapes in both tiers; rapid samples further shapes and type pairs. Append within capacity also with source and destination being windows of one parent, and of a buffer onto itself. Interleaved get/put cycles of two pools of the same shape for every pair of element types. The 8 x 4096 shape runs for every conversion in the quick tier too."),
     level_note="AllocsPerRun truncates the per-run average, so a one-off allocation by the runtime (e.g. a pool refill after GC) does not count while any per-call allocation does.",
 )
 PROPS["C11"] = dict(
@@ -358,7 +358,7 @@ PROPS["C19"] = dict(
                                  "the race detector reports unordered conflicting accesses that actually executed"],
     technique="randomised concurrent stress under the Go race detector with rapid-generated reader/writer scripts; differential oracle against the sequential execution of the same scripts",
     level_text=("Schedule sampling, not enumeration. Hidden shared mutable state in a read path or a write outside a slice's window is an unordered conflicting access, which the race "
-                "detector reports whenever both accesses execute, whatever the interleaving; results are also compared with a sequential run. A fifth of the cases use 5..17 (rarely 60..70) channels; the sweep includes 9 and 16. Writer windows may reach into the spare capacity, with a boundary right behind a partial last frame; reader results are rendered without package fmt (its pooled printers would order the goroutines); writers offer inputs longer than their window, also to an empty window; a third of the cases take the shared buffer from a pool allocator."),
+                "detector reports whenever both accesses execute, whatever the interleaving; results are also compared with a sequential run. A fifth of the cases use 5..17 (rarely 60..70) channels; the sweep includes 9 and 16. Writer windows may reach into the spare capacity, with a boundary right behind a partial last frame; reader results are rendered without package fmt (its pooled printers would order the goroutines); writers offer inputs longer than their window, also to an empty window; a third of the cases take the shared buffer from a pool allocator, a quarter from a growing Append (no Cap() or Slice() call on it before the goroutines start)."),
     level_note="Race reports are turned into violations with the process log as the replay artefact; so is an abort of the race build's pointer checker (checkptr) whose innermost non-runtime frame is in pipelined.dev/signal.",
 )
 
